@@ -182,6 +182,8 @@ class SimpleTypeChecker(walkers.DagWalker):
         target_width = formula.bv_width()
         if target_width < formula.bv_rotation_step() or target_width < 0:
             return None
+        if formula.bv_rotation_step() < 0:
+            return None
         if target_width != cast(types._BVType, args[0]).width:
             return None
         return BVType(target_width)
@@ -264,6 +266,8 @@ class SimpleTypeChecker(walkers.DagWalker):
         #pylint: disable=unused-argument
         assert formula is not None
         assert len(args) == 1
+        if not all(v.is_symbol() for v in formula.quantifier_vars()):
+            return None
         if args[0] == BOOL:
             return BOOL
         return None
@@ -335,6 +339,8 @@ class SimpleTypeChecker(walkers.DagWalker):
 
     def walk_pow(self, formula: FNode, args: List[PySMTType], **kwargs) -> Optional[PySMTType]:
         if args[0] != args[1]:
+            return None
+        if not (args[0].is_int_type() or args[0].is_real_type()):
             return None
         return REAL
 
